@@ -1,5 +1,5 @@
 import IdspModel.Lemmas.Atan2Tab
-/-! `atani` table, chunk 6 of 10: quotient fields 49152 … 57344 (complete range, evaluated by the kernel). -/
+/-! `atani` table, chunk 6 of 8: quotient fields 49152 … 57344 (complete range, evaluated by the kernel). -/
 namespace Idsp
 
 theorem atanTab6 : atanRun 49152 8193 = true := by decide +kernel
